@@ -1,3 +1,192 @@
-From Coq Require Import List.
-Require Import AOV.base.Num AOV.model.KL.
-Theorem C13_placeholder : True. Proof. exact I. Qed.
+(* C13 -- Karhunen-Loeve modes are orthonormal, piston-free and diagonalise the Kolmogorov covariance.
+   Model: coq/model/KL.v (hand-written; stf_kolmogorov regenerated from source in gen/Gen_kl.v), tied to
+   aotools/functions/karhunenLoeve.py stage by stage by the correspondence check (harness/pC13.py).
+   numpy.linalg.eigh and numpy.argsort results are INPUTS of the model: their contracts (orthonormal
+   eigenvector columns, eigen-equations, descending order of the selected eigenvalues, distinct indices) are
+   explicit premises below, shown satisfiable by Examples in proofs/C13_proofs.v. *)
+From Coq Require Import Reals Arith List.
+Require Import AOV.base.Num AOV.base.NumR AOV.base.Cplx AOV.model.Mat AOV.model.KL
+               AOV.proofs.Mat_proofs AOV.proofs.C13_lemmas AOV.proofs.C13_proofs.
+Import ListNotations.
+Local Open Scope R_scope.
+
+(* ---- piston filtering: piston_orth(nr) is orthogonal, all but its last column sum to zero ---- *)
+Theorem C13_piston_orth_is_orthogonal : forall G K nr a b, (1 <= nr)%nat -> (a < nr)%nat -> (b < nr)%nat ->
+  wf_mat nr nr (piston_orth (ROps G K) nr) /\
+  rsum (fun i => ent (piston_orth (ROps G K) nr) i a * ent (piston_orth (ROps G K) nr) i b) nr
+  = (if (a =? b)%nat then 1 else 0) /\
+  rsum (fun j => ent (piston_orth (ROps G K) nr) a j * ent (piston_orth (ROps G K) nr) b j) nr
+  = (if (a =? b)%nat then 1 else 0).
+Proof.
+  intros G K nr a b H1 Ha Hb. destruct (piston_orth_orthogonal G K nr a b H1 Ha Hb) as [W E].
+  split; [exact W|]. split; [exact E|]. apply piston_orth_rows_orthogonal; assumption.
+Qed.
+Print Assumptions C13_piston_orth_is_orthogonal.
+
+Theorem C13_piston_free_columns : forall G K nr j, (S j < nr)%nat ->
+  rsum (fun i => ent (piston_orth (ROps G K) nr) i j) nr = 0.
+Proof. exact piston_orth_columns_zero_sum. Qed.
+
+(* ---- azimuthal functions: discrete orthogonality on the uniform grid, as long as frequencies do not alias ---- *)
+Theorem C13_azimuthal_rows_orthogonal : forall G K nord npp a b,
+  (1 <= npp)%nat -> (a < nord)%nat -> (b < nord)%nat -> (az_freq a + az_freq b < npp)%nat ->
+  / INR npp * rsum (fun t => ent (azimuthal (ROps G K) nord npp) a t * ent (azimuthal (ROps G K) nord npp) b t) npp
+  = if (a =? b)%nat then (if (a =? 0)%nat then 1 else 1 / 2) else 0.
+Proof. exact azimuthal_orthogonal. Qed.
+
+(* the no-aliasing bound cannot be dropped: at 2 f = npp the cosine row has mean square 1 and the sine row vanishes *)
+Theorem C13_azimuthal_aliasing_bound_is_tight : forall G K,
+  / INR 2 * rsum (fun t => ent (azimuthal (ROps G K) 3 2) 1 t * ent (azimuthal (ROps G K) 3 2) 1 t) 2 = 1 /\
+  (forall t, (t < 2)%nat -> ent (azimuthal (ROps G K) 3 2) 2 t = 0).
+Proof. exact azimuthal_alias_tight. Qed.
+
+(* ---- selection, cos/sin pairing, sorting (integers only) ---- *)
+Theorem C13_exactly_nfunc_modes : forall nr nfunc sorted, (nfunc <= length sorted)%nat ->
+  length (oind nr nfunc sorted) = nfunc.
+Proof. exact oind_length. Qed.
+
+(* every selected eigenvalue of azimuthal order t >= 1 yields two CONSECUTIVE modes with the same radial function,
+   one on the cosine row 2t-1 and one on the sine row 2t, whatever the parity of its position; an order-0
+   eigenvalue yields one mode on row 0; only the second member of the last pair can be cut by the truncation *)
+Theorem C13_cos_sin_pairing : forall nr nfunc sorted, (0 < nr)%nat ->
+  let oi := oind nr nfunc sorted in
+  exists m, (m <= length sorted)%nat /\
+    pair_up (S nfunc) nr nfunc sorted [] = expand nr (firstn m sorted) /\
+    forall j, (j < m)%nat ->
+      let k := length (expand nr (firstn j sorted)) in
+      let x := nth j sorted 0%nat in
+      let t := (x / nr)%nat in
+      (k < nfunc)%nat /\ nth k oi 0%nat = x /\ nth k (tord nr oi) 0%nat = t /\ nth k (pio nr oi) 0%nat = (x mod nr)%nat /\
+      ((x < nr)%nat -> t = 0%nat /\ nth k (oord nr oi) 0%nat = 0%nat) /\
+      ((nr <= x)%nat -> (1 <= t)%nat /\
+         nth k (oord nr oi) 0%nat = (if Nat.odd k then 2 * t - 1 else 2 * t)%nat /\
+         ((S k < nfunc)%nat ->
+            nth (S k) oi 0%nat = x /\ nth (S k) (tord nr oi) 0%nat = t /\ nth (S k) (pio nr oi) 0%nat = (x mod nr)%nat /\
+            nth (S k) (oord nr oi) 0%nat = (if Nat.odd k then 2 * t else 2 * t - 1)%nat)).
+Proof. exact oind_pairs. Qed.
+
+(* returned variances are in non-increasing order (argsort contract), the two members of a pair are equal *)
+Theorem C13_variances_sorted_and_pairs_equal : forall G K (evs : list R) nr nfunc sorted,
+  (forall k, (S k < length sorted)%nat -> nth (nth (S k) sorted 0%nat) evs 0 <= nth (nth k sorted 0%nat) evs 0) ->
+  (forall k, (S k < length (oind nr nfunc sorted))%nat ->
+     nth (S k) (evals_out (ROps G K) evs (oind nr nfunc sorted)) 0 <= nth k (evals_out (ROps G K) evs (oind nr nfunc sorted)) 0) /\
+  (forall k, (S k < length (oind nr nfunc sorted))%nat ->
+     nth k (oind nr nfunc sorted) 0%nat = nth (S k) (oind nr nfunc sorted) 0%nat ->
+     nth k (evals_out (ROps G K) evs (oind nr nfunc sorted)) 0 = nth (S k) (evals_out (ROps G K) evs (oind nr nfunc sorted)) 0).
+Proof. intros G K evs nr nfunc sorted H; split; [apply evals_sorted; exact H|apply evals_pair_equal]. Qed.
+
+(* ---- the modes the model builds from the eigh / argsort results are orthonormal over the pupil on the native
+   polar grid (equal-area radii x uniform azimuth: the plain mean is the pupil average) ... ---- *)
+Theorem C13_modes_orthonormal_over_the_pupil : forall G K nr npp nord nfunc (sorted : list nat) (kers : list (list (list R)))
+    (v0 : list (list R)) (vsp : nat -> list (list R)) pmax,
+  (1 <= nr)%nat -> (1 <= npp)%nat -> NoDup sorted ->
+  (forall x, In x sorted -> (x < nr * S pmax)%nat) ->
+  (2 * pmax < nord)%nat -> (2 * pmax < npp)%nat ->
+  (forall a b, (a < nr - 1)%nat -> (b < nr - 1)%nat ->
+     rsum (fun j => ent v0 j a * ent v0 j b) (nr - 1) = if (a =? b)%nat then 1 else 0) ->
+  nth 0 kers [] = radial0 (ROps G K) nr v0 ->
+  (forall p, (1 <= p <= pmax)%nat ->
+     wf_mat nr nr (vsp p) /\
+     (forall a b, (a < nr)%nat -> (b < nr)%nat ->
+        rsum (fun k => ent (vsp p) k a * ent (vsp p) k b) nr = if (a =? b)%nat then 1 else 0) /\
+     nth p kers [] = radialp (ROps G K) nr (vsp p)) ->
+  let oi := oind nr nfunc sorted in
+  forall i i', (i < length oi)%nat -> (i' < length oi)%nat ->
+    pupil_inner nr npp (kl_mode G K kers nr nord npp oi i) (kl_mode G K kers nr nord npp oi i')
+    = if (i =? i')%nat then 1 else 0.
+Proof. exact kl_modes_orthonormal. Qed.
+Print Assumptions C13_modes_orthonormal_over_the_pupil.
+
+(* ... and piston-free: every selected mode except the constant one (flat index nr-1, variance 0) has zero mean *)
+Theorem C13_modes_have_zero_mean : forall G K nr npp nord nfunc (sorted : list nat) (kers : list (list (list R)))
+    (v0 : list (list R)) pmax,
+  (1 <= nr)%nat -> (1 <= npp)%nat ->
+  (forall x, In x sorted -> (x < nr * S pmax)%nat) ->
+  (2 * pmax < nord)%nat -> (pmax < npp)%nat ->
+  nth 0 kers [] = radial0 (ROps G K) nr v0 ->
+  let oi := oind nr nfunc sorted in
+  forall i, (i < length oi)%nat -> nth i oi 0%nat <> (nr - 1)%nat ->
+    pupil_avg nr npp (kl_mode G K kers nr nord npp oi i) = 0.
+Proof. exact kl_modes_zero_mean. Qed.
+
+(* kl_mode is literally what gkl_sfi returns in the model *)
+Theorem C13_kl_mode_is_gkl_sfi : forall G K kers nr nord npp oi i,
+  kl_mode G K kers nr nord npp oi i
+  = sfi (ROps G K) (rabas_col (ROps G K) kers nr oi i) (nth (nth i (oord nr oi) 0%nat) (azimuthal (ROps G K) nord npp) []).
+Proof. reflexivity. Qed.
+
+(* ---- kernel: the sampled structure function is even in the azimuthal lag, so its DFT is real (the stored real
+   part loses nothing) and each order's kernel matrix is symmetric; eigenvectors of the order-p matrix
+   diagonalise it ---- *)
+Theorem C13_kernel_is_real_and_symmetric : forall G K ri nr rad,
+  (forall i j k, (k < 5 * nr)%nat ->
+     snd (nth k (dft (ROps G K) (map (cofR (ROps G K)) (kl_sf G K nr rad i j))) (czero (ROps G K))) = 0) /\
+  (forall p i j, (i < nr)%nat -> (j < nr)%nat ->
+     ent (kernel_order (ROps G K) ri nr rad p) i j = ent (kernel_order (ROps G K) ri nr rad p) j i).
+Proof.
+  intros G K ri nr rad; split.
+  - intros i j k Hk. destruct (kernel_real_even G K ri nr rad i j) as (_ & _ & _ & H). apply H; exact Hk.
+  - intros p i j Hi Hj. apply kernel_order_symmetric; assumption.
+Qed.
+
+Theorem C13_eigenvectors_diagonalise_their_order : forall G K ri nr kp (vs : list (list R)) (lam : list R),
+  wf_mat nr nr vs ->
+  (forall b, (b < nr)%nat ->
+     mvec (ROps G K) (orderp_matrix (ROps G K) ri nr kp) (mcol vs b) = vscale (ROps G K) (nth b lam 0) (mcol vs b)) ->
+  (forall a b, (a < nr)%nat -> (b < nr)%nat ->
+     rsum (fun k => ent vs k a * ent vs k b) nr = if (a =? b)%nat then 1 else 0) ->
+  forall a b, (a < nr)%nat -> (b < nr)%nat ->
+    ndot (ROps G K) (mcol vs a) (mvec (ROps G K) (orderp_matrix (ROps G K) ri nr kp) (mcol vs b))
+    = if (a =? b)%nat then nth a lam 0 else 0.
+Proof. exact order_p_diagonalises. Qed.
+
+(* ---- Cartesian rendering ---- *)
+(* the returned pupil is exactly the indicator of the annulus ri^2 <= x^2 + y^2 <= 1 at the pixel centres *)
+Theorem C13_pupil_is_the_annulus_indicator : forall G K ncp ri i j, (i < ncp)%nat -> (j < ncp)%nat ->
+  let x := car_coord (ROps G K) ncp j in let y := car_coord (ROps G K) ncp i in
+  (ri * ri <= x * x + y * y <= 1 -> ent (pupil (ROps G K) ncp ri) i j = 1) /\
+  (~ (ri * ri <= x * x + y * y <= 1) -> ent (pupil (ROps G K) ncp ri) i j = 0).
+Proof. exact pupil_is_annulus_indicator. Qed.
+
+(* masked rendering: zero at every pixel outside the annulus, whatever the polar function *)
+Theorem C13_masked_rendering_is_zero_outside : forall G K pol ri nr npp ncp i j, (i < ncp)%nat -> (j < ncp)%nat ->
+  let x := car_coord (ROps G K) ncp j in let y := car_coord (ROps G K) ncp i in
+  ~ (ri * ri <= x * x + y * y <= 1) -> kl_pixel (ROps G K) pol ri nr npp ncp true i j = 0.
+Proof.
+  intros G K pol ri nr npp ncp i j Hi Hj x y Hout. unfold kl_pixel.
+  destruct (pupil_is_annulus_indicator G K ncp ri i j Hi Hj) as [_ H0]. specialize (H0 Hout).
+  pose proof (masked_zero_outside G K pol ncp ri i j
+                (geom_cr (ROps G K) ncp ri nr i j) (geom_cp (ROps G K) ncp npp i j) Hi Hj Hout) as M.
+  unfold ent in H0, M.
+  unfold pupil in H0, M. rewrite (Dft_proofs.nth_map_seq _ ncp i) in H0, M by exact Hi.
+  rewrite (Dft_proofs.nth_map_seq _ ncp j) in H0, M by exact Hj. exact M.
+Qed.
+
+(* the resampled value is a convex combination of four polar samples: it stays within the range of the polar
+   function, and is the sample itself at integer polar coordinates *)
+Theorem C13_rendering_is_bilinear_resampling : forall G K nrw ncl (pol : list (list R)),
+  wf_mat nrw ncl pol -> (0 < nrw)%nat -> (0 < ncl)%nat ->
+  (forall r c m M, (forall i j, (i < nrw)%nat -> (j < ncl)%nat -> m <= ent pol i j <= M) ->
+     m <= bilinear (ROps G K) pol r c <= M) /\
+  (forall zi zj, bilinear (ROps G K) pol (IZR zi) (IZR zj) = bl_at pol zi zj).
+Proof.
+  intros G K nrw ncl pol W Hr Hc; split.
+  - intros r c m M H. eapply bilinear_in_range; eassumption.
+  - intros; apply bilinear_exact_on_grid.
+Qed.
+
+(* the premises above are jointly satisfiable (nr = 2, four modes: a sine/cosine pair, the piston-free order-0
+   mode, and the first member of a cut pair) *)
+Example C13_nonvacuous : forall G K,
+  exists (sorted : list nat) (kers : list (list (list R))) (v0 : list (list R)) (vsp : nat -> list (list R)) (pmax nord npp : nat),
+    NoDup sorted /\ (forall x, In x sorted -> (x < 2 * S pmax)%nat) /\ (2 * pmax < nord)%nat /\ (2 * pmax < npp)%nat /\
+    (forall a b, (a < 2 - 1)%nat -> (b < 2 - 1)%nat ->
+       rsum (fun j => ent v0 j a * ent v0 j b) (2 - 1) = if (a =? b)%nat then 1 else 0) /\
+    nth 0 kers [] = radial0 (ROps G K) 2 v0 /\
+    (forall p, (1 <= p <= pmax)%nat ->
+       wf_mat 2 2 (vsp p) /\
+       (forall a b, (a < 2)%nat -> (b < 2)%nat ->
+          rsum (fun k => ent (vsp p) k a * ent (vsp p) k b) 2 = if (a =? b)%nat then 1 else 0) /\
+       nth p kers [] = radialp (ROps G K) 2 (vsp p)) /\
+    oind 2 4 sorted = [2; 2; 0; 3]%nat /\ oord 2 (oind 2 4 sorted) = [2; 1; 0; 1]%nat.
+Proof. exact kl_modes_premises_satisfiable. Qed.
